@@ -188,7 +188,7 @@ deriving Repr
 inductive VarKind where
   | marker (name : Str)
   | requestHeader (name : Str) (default : Option Str)
-  | requestHost | requestMethod | requestPath | requestScheme
+  | requestHost | requestMethod | requestPath | requestScheme | requestRemoteAddress | requestTime
 deriving Repr
 
 /-- `api::Variable` -/
@@ -208,12 +208,21 @@ structure Rule where
   target : Option Str
   headerFilters : List Str            -- value templates of the custom header filters
   bodyFilters : List Str              -- content templates of the text body filters
+  htmlFilters : List (Str × Option Str) := []   -- (value, inner_value) templates of the html body filters
 deriving Repr
 
 structure Config where
   ignorePathCase : Bool
   ignoreHostCase : Bool
   ignoreHeaderCase : Bool
+deriving Repr
+
+/-- `request.created_at`: the year and chrono's two renderings (`to_rfc2822` panics outside years 0..=9999, so the
+code picks by year; the renderings themselves are a table for the model). -/
+structure TimeInfo where
+  year : Int
+  rfc2822 : Str
+  rfc3339 : Str
 deriving Repr
 
 /-- `http::Request` as built by `Request::from_config` + `add_header(.., ignore_header_case)` for a path without
@@ -226,6 +235,8 @@ structure Request where
   scheme : Option Str
   method : Option Str
   headers : List (Str × Str)
+  remoteAddr : Option Str := none     -- `remote_addr.to_string()`
+  createdAt : Option TimeInfo := none
 deriving Repr
 
 /-- What the model needs from the `regex` crate. -/
@@ -339,6 +350,10 @@ def Variable.getValue (cf : CaseFns) (v : Variable) (input : List (Str × Str)) 
     | .requestMethod => q.method.getD []
     | .requestPath => q.original
     | .requestScheme => q.scheme.getD []
+    | .requestRemoteAddress => q.remoteAddr.getD []
+    | .requestTime => match q.createdAt with
+      | none => []
+      | some d => if 0 ≤ d.year ∧ d.year ≤ 9999 then d.rfc2822 else d.rfc3339
     | .marker name => (input.lookup name).getD []
   applyTransformers cf v.transformers value
 
@@ -357,6 +372,7 @@ structure Outcome where
   location : List Str      -- values of the `Location` header after `filter_headers`
   headers : List Str       -- values of the custom header filters
   body : Str               -- output of the text body filters on the probe (`""` without filters)
+  html : List (Str × Str)  -- (value, inner_value) of the html body filters carried by the action
   target : Option Str      -- `Action::get_target`
 deriving Repr, DecidableEq
 
@@ -367,6 +383,8 @@ def Rule.outcomeWith (r : Rule) (probe : Str) (sub : Str → Str) : Outcome :=
       | none => []
     headers := r.headerFilters.map sub
     body := if r.bodyFilters.isEmpty then [] else probe ++ r.bodyFilters.flatMap sub
+    -- `inner_value: Some(replace(inner_value.unwrap_or(value)))`
+    html := r.htmlFilters.map fun f => (sub f.1, sub (f.2.getD f.1))
     target := r.target.map sub }
 
 /-- The code: sequential replace with the sorted variable list. -/
